@@ -213,3 +213,22 @@ def classes_with_private_reach(an: Analysis):
                     reach[c.qual] = True
                     changed = True
     return dcs, has_priv, reach
+
+
+def keeps_acting_entries(p: str, v: ast.AST, fieldname: str) -> bool:
+    """`v` restricts the tuple `p.<fieldname>` to its entries that are not zero, in order (decided on witness tuples).  For a field that lists extra
+    line-table entries this is the canonical form that keeps what CPython acts on: an entry of zero is redundant, an entry that moves the line fires a
+    line event when tracing (C05) - the restriction is idempotent and depends on nothing else, which is all C06 needs of a normal form."""
+    from sa.feval import FevalError, feval
+    names = {n.id for n in ast.walk(v) if isinstance(n, ast.Name) and isinstance(n.ctx, ast.Load)}
+    attrs = {(n.value.id, n.attr) for n in ast.walk(v) if isinstance(n, ast.Attribute) and isinstance(n.value, ast.Name)}
+    if attrs != {(p, fieldname)} or not names <= {p, "tuple", "list", "filter", "bool"} | {n.id for n in ast.walk(v) if isinstance(n, ast.Name) and isinstance(n.ctx, ast.Store)}:
+        return False
+    try:
+        for w in [(), (0,), (1, -1), (0, 2, 0), (0, 0), (-1,), (3, 0, -3, 0, 5)]:
+            got = feval(v, {p: {fieldname: w}, "tuple": tuple, "list": list})
+            if not isinstance(got, tuple) or got != tuple(x for x in w if x != 0):
+                return False
+    except (FevalError, KeyError, TypeError):
+        return False
+    return True
